@@ -5,7 +5,7 @@ import glob
 import os
 
 from . import gen
-from .common import REPO, Batch, Result, canon_json, conv_tree, err_class, fl, load_corpus, raw_parse, render_doc, rng_for
+from .common import REPO, Batch, Result, canon_json, conv_tree, err_class, fl, load_corpus, raw_parse, render_doc, rng_for, parse_with
 from .decsnap import impl_tables, impl_tables_public, model_tables
 
 
@@ -64,7 +64,7 @@ def run(ctx):
                 q = DecFileParser(path)
                 if extra:
                     q.load_additional_decay_models(*extra)
-                q.parse(include_ccdecays=case["include_ccdecays"])
+                parse_with(q, case["include_ccdecays"])
                 got = impl_tables(q)
             except Exception as e:
                 got = "error: " + err_class(e)
@@ -89,7 +89,7 @@ def run(ctx):
             if extra:
                 p.load_additional_decay_models(*extra)
                 case["registered"] = list(extra)
-            p.parse(include_ccdecays=cc)
+            case["call"] = parse_with(p, cc)
             impl = impl_tables(p)
             pub = impl_tables_public(p)
             n = p.number_of_decays
@@ -114,7 +114,7 @@ def run(ctx):
                 q = DecFileParser.from_string(text)
                 if extra:
                     q.load_additional_decay_models(*extra)
-                q.parse(include_ccdecays=cc)
+                parse_with(q, cc)
                 return impl_tables(q)
 
             res.remember({"text": text, "include_ccdecays": cc}, again, impl)
